@@ -1,6 +1,7 @@
 import MJ.Model.Meta
 import MJ.Model.MetaArms
 import MJ.Model.MetaSet
+import MJ.Model.MetaEsc
 /-! Line driver for C18.
 
 stdin: one template per line, the real AST as prefix tokens (see `harness/src/bin/c18.rs`).
@@ -22,6 +23,14 @@ stdout, per line:  `und=<names>\tnested=<dotted names>\tmacros=<name:flag:closur
 `drive_c18 arms` prints the model's arm tables (`MJ/Model/MetaArms.lean`) and the run-time
 tables of `MJ/Model/MetaSet.lean`, one row per line `table<TAB>variant<TAB>cfg<TAB>op¦op¦…`, so
 that `lib/props/c18.py` can name the arm of `meta.rs` that differs from the model.
+
+`drive_c18 heap`: stdin = one trace of closure operations of the real engine per line (tokens
+`P0` push frame, `P1` push loop frame, `O` pop, `S:key` store, `D:k1,k2,…` macro declaration with
+its `Enclose` names, `I` iterate, `T` / `R` take / reset closure around an include, `M:c:caller`
+macro call of a value whose closure is `c` (`-` = none), `L` return); the trace is replayed on the
+closure heap machine of `MJ/Model/MetaEsc.lean` (`Heap.step`, nothing else) and, per event, the
+closure attachments of the frames of the active context (`closure:closure_context`, bottom
+first) are printed, for `M` followed by `/` and the keys of the value's closure object.
 -/
 open MJ.Meta
 
@@ -306,6 +315,60 @@ partial def loop (h : IO.FS.Stream) (out : IO.FS.Stream) : IO Unit := do
   out.putStrLn (handle (line.dropEndWhile (· == '\n')).toString)
   loop h out
 
+/-! ### replay of engine traces on the closure heap machine -/
+
+def optStr : Option Nat → String
+  | some c => toString c
+  | none => "-"
+
+def snapshot (h : Heap) : String :=
+  ",".intercalate (h.stack.reverse.map (fun f => s!"{optStr f.closure}:{optStr f.closureCtx}"))
+
+def sortedKeys (h : Heap) (c : Option Nat) : String :=
+  "+".intercalate ((dedup (h.keys c)).toArray.qsort (· < ·)).toList
+
+/-- a declaration whose closure analysis gives exactly `ks` -/
+def declOf (ks : List String) : MacroDecl := ⟨[], [], ks.map (fun k => Stmt.emit (.var k))⟩
+
+def parseClosure (s : String) : Option Nat := if s == "-" then none else s.toNat?
+
+def heapEvent (h : Heap) (tok : String) : Heap × String :=
+  let parts := tok.splitOn ":"
+  match parts with
+  | ["P0"] => let h' := h.step .pushFrame; (h', snapshot h')
+  | ["P1"] => let h' := h.step .pushLoop; (h', snapshot h')
+  | ["O"] => let h' := h.step .popFrame; (h', snapshot h')
+  | ["S", k] => let h' := h.step (.store k); (h', snapshot h')
+  | ["D", ks] =>
+      let names := (ks.splitOn ",").filter (· ≠ "")
+      let h' := h.step (.declare (declOf names))
+      (h', snapshot h' ++ "/" ++ optStr ((h'.pool.getLast?.map (·.closure)).getD none))
+  | ["I"] => let h' := h.step .iterate; (h', snapshot h')
+  | ["T"] => let h' := h.step .includeEnter; (h', snapshot h')
+  | ["R"] => let h' := h.step .includeLeave; (h', snapshot h')
+  | ["M", c, caller] =>
+      let cl := parseClosure c
+      match h.pool.findIdx? (fun v => v.closure == cl) with
+      | some v =>
+          let h' := h.step (.enterMacro v (caller == "1"))
+          (h', snapshot h' ++ "/" ++ sortedKeys h' cl)
+      | none => (h, "?no-value-with-closure-" ++ c)
+  | ["L"] => let h' := h.step .leaveMacro; (h', snapshot h')
+  | _ => (h, "?bad-token-" ++ tok)
+
+def handleHeap (line : String) : String :=
+  let toks := (line.splitOn " ").filter (· ≠ "")
+  let (_, outs) := toks.foldl (fun (acc : Heap × Array String) tok =>
+    let (h', o) := heapEvent acc.1 tok
+    (h', acc.2.push o)) (({} : Heap), #[])
+  " ".intercalate outs.toList
+
+partial def loopHeap (h : IO.FS.Stream) (out : IO.FS.Stream) : IO Unit := do
+  let line ← h.getLine
+  if line.isEmpty then return ()
+  out.putStrLn (handleHeap (line.dropEndWhile (· == '\n')).toString)
+  loopHeap h out
+
 def printRows (out : IO.FS.Stream) (table : String) (rows : List Row) : IO Unit := do
   for (v, cfg, ops) in renderRows rows do
     out.putStrLn s!"{table}\t{v}\t{cfg}\t{"¦".intercalate ops}"
@@ -321,5 +384,7 @@ def main (args : List String) : IO Unit := do
     stdout.putStrLn s!"C18_LOAD_ORDER\t\t\t{"¦".intercalate loadOrder}"
     stdout.putStrLn s!"C18_MACRO_CALL_FRAMES\t\t\t{"¦".intercalate macroCallFrames}"
     stdout.putStrLn s!"C18_MACRO_CODEGEN\t\t\t{"¦".intercalate macroCodegen}"
+  else if args == ["heap"] then
+    loopHeap stdin stdout
   else
     loop stdin stdout
